@@ -14,7 +14,7 @@ import json
 import os
 
 from lib.core import REPO
-from .pyast import TranslateError, src
+from .pyast import TranslateError, normalise, src
 
 OUTPUTS = ["CollGen"]
 COLLECTIVES = {"barrier": 0, "broadcast_object_list": 1, "all_gather_object": 2, "scatter_object_list": 3}
@@ -46,7 +46,7 @@ def load():
         base = os.path.basename(f)
         if base in EXCLUDE_FILES:
             continue
-        mod = ast.parse(open(f).read(), filename=f)
+        mod = normalise(ast.parse(open(f).read(), filename=f))
 
         def visit(node, cls):
             for n in ast.iter_child_nodes(node):
